@@ -268,6 +268,151 @@ func c40Step(state, input, output interface{}) (bool, interface{}) {
 	}
 }
 
+// ---- two-point model: what the service does on the unchanged tree. A change
+// request is evaluated at one point (which makes its world visible and, for
+// a change computed from a read, reads the value) and applied at a later
+// point to the world object obtained at evaluation; if that world was
+// deleted in between, the change lands on the orphaned object and is lost.
+// Each change request is two operations (eval, apply) over the same
+// interval, ordered by the model through a pending table.
+
+type c40In2 struct {
+	Phase string // "", "eval", "apply"
+	Req   int
+	In    c40In
+}
+
+// state2 = state1 + "#" + generations + "#" + pending entries
+type c40State2 struct {
+	c40State
+	gen     [3]int
+	pending map[int]string // req -> "world,gen,value"
+}
+
+func c40Parse2(s string) c40State2 {
+	parts := strings.SplitN(s, "\x01", 3)
+	for len(parts) < 3 {
+		parts = append(parts, "")
+	}
+	st := c40State2{c40State: c40Parse(parts[0]), pending: map[int]string{}}
+	if parts[1] != "" {
+		fmt.Sscanf(parts[1], "%d,%d,%d", &st.gen[0], &st.gen[1], &st.gen[2])
+	}
+	if parts[2] != "" {
+		for _, e := range strings.Split(parts[2], ";") {
+			var req int
+			var rest string
+			if i := strings.IndexByte(e, ':'); i > 0 {
+				fmt.Sscanf(e[:i], "%d", &req)
+				rest = e[i+1:]
+			}
+			st.pending[req] = rest
+		}
+	}
+	return st
+}
+
+func (st c40State2) String() string {
+	var ps []string
+	for r, v := range st.pending {
+		ps = append(ps, fmt.Sprintf("%d:%s", r, v))
+	}
+	sort.Strings(ps)
+	return st.c40State.String() + "\x01" + fmt.Sprintf("%d,%d,%d", st.gen[0], st.gen[1], st.gen[2]) + "\x01" + strings.Join(ps, ";")
+}
+
+func (st *c40State2) touch(w int) {
+	if !st.exists[w] {
+		st.exists[w] = true
+		st.gen[w]++
+		st.tags[w] = map[string]string{}
+	}
+}
+
+func c40Step2(state, input, output interface{}) (bool, interface{}) {
+	st := c40Parse2(state.(string))
+	in2 := input.(c40In2)
+	in := in2.In
+	switch in2.Phase {
+	case "":
+		switch in.Kind {
+		case "list":
+			out := output.(c40Out)
+			var idx []string
+			for i, e := range st.exists {
+				if e {
+					idx = append(idx, fmt.Sprint(i))
+				}
+			}
+			if len(idx) == 0 {
+				idx = []string{"0"}
+			}
+			if !in.Final {
+				return !out.Err && !strings.Contains(out.Worlds, "?"), state
+			}
+			return !out.Err && out.Worlds == strings.Join(idx, ","), state
+		case "delete":
+			out := output.(c40Out)
+			if st.exists[in.World] {
+				st.exists[in.World] = false
+				st.tags[in.World] = map[string]string{}
+			}
+			return !out.Err, st.String()
+		case "read":
+			out := output.(c40Out)
+			st.touch(in.World)
+			return !out.Err && out.Val == c40Lookup(&st.c40State, in.World, in.Feat, in.Key), st.String()
+		}
+		panic("unexpected single-point op " + in.Kind)
+	case "eval":
+		if _, dup := st.pending[in2.Req]; dup {
+			return false, state
+		}
+		st.touch(in.World)
+		val := ""
+		if in.Kind == "copy" {
+			val = c40Lookup(&st.c40State, in.World, in.Feat, in.Val)
+		}
+		st.pending[in2.Req] = fmt.Sprintf("%d,%d,%s", in.World, st.gen[in.World], val)
+		return true, st.String()
+	case "apply":
+		out := output.(c40Out)
+		p, ok := st.pending[in2.Req]
+		if !ok {
+			return false, state // apply before eval
+		}
+		delete(st.pending, in2.Req)
+		f := strings.SplitN(p, ",", 3)
+		var w, g int
+		fmt.Sscanf(f[0], "%d", &w)
+		fmt.Sscanf(f[1], "%d", &g)
+		// success does not depend on the world's state here (features come
+		// from the base): decide on a scratch copy
+		scratch := c40State{}
+		for i := range scratch.tags {
+			scratch.tags[i] = map[string]string{}
+		}
+		applied := in
+		if in.Kind == "copy" {
+			applied = c40In{Kind: "addtag", World: in.World, Feat: in.Feat, Key: in.Key, Val: f[2]}
+		}
+		okc := c40ApplyChange(&scratch, applied)
+		if out.Err == okc {
+			return false, state
+		}
+		if okc && st.exists[w] && st.gen[w] == g {
+			c40ApplyChange(&st.c40State, applied)
+		}
+		return true, st.String()
+	}
+	panic("bad phase")
+}
+
+var c40Model2 = porcupine.Model{
+	Init: func() interface{} { return "" },
+	Step: c40Step2,
+}
+
 var c40Model = porcupine.Model{
 	Init: func() interface{} { return "" },
 	Step: c40Step,
@@ -397,12 +542,9 @@ type c40Op struct {
 func runC40(rc *RC) {
 	name := "C40/service"
 	readDependent := rc.Pct(20)
-	if readDependent {
-		// Changes whose value is computed from a read. See the known
-		// finding: evaluation happens under the read lock, application
-		// later under the write lock.
-		name = "C40/service(read-dependent changes)"
-	}
+	// readDependent: some changes are computed from a read
+	// (add-tag F (tag k (get-string F k2))); see the known finding
+	// C40/service/stale-apply
 	rc.Phase(name)
 	g := newCityGen(rc)
 	s, base, err := newC40Service(rc, g)
@@ -525,14 +667,44 @@ func runC40(rc *RC) {
 			}
 		}
 	}
-	res, info := porcupine.CheckOperationsVerbose(c40Model, history, 30*time.Second)
+	res := porcupine.CheckOperationsTimeout(c40Model, history, 30*time.Second)
+	if res == porcupine.Illegal {
+		// Not explained by any serial order. Is it explained by the
+		// two-point semantics of the unchanged service (evaluate, then
+		// apply later to the world obtained at evaluation)?
+		var h2 []porcupine.Operation
+		for i, op := range history {
+			in := op.Input.(c40In)
+			switch in.Kind {
+			case "list", "delete", "read":
+				h2 = append(h2, porcupine.Operation{ClientId: op.ClientId, Input: c40In2{In: in}, Output: op.Output, Call: op.Call, Return: op.Return})
+			default:
+				h2 = append(h2, porcupine.Operation{ClientId: op.ClientId, Input: c40In2{Phase: "eval", Req: i, In: in}, Output: c40Out{}, Call: op.Call, Return: op.Return})
+				h2 = append(h2, porcupine.Operation{ClientId: op.ClientId, Input: c40In2{Phase: "apply", Req: i, In: in}, Output: op.Output, Call: op.Call, Return: op.Return})
+			}
+		}
+		switch porcupine.CheckOperationsTimeout(c40Model2, h2, 30*time.Second) {
+		case porcupine.Ok:
+			rc.Probe("porcupine-illegal-but-two-point-ok")
+			var lines []string
+			for c := range ops {
+				for _, op := range ops[c] {
+					lines = append(lines, fmt.Sprintf("  client%d [%d,%d] %s -> err=%v val=%q", c, op.call, op.ret, op.in, op.out.Err, op.out.Val))
+				}
+			}
+			rc.Fail("C40/service/stale-apply", "no serial order explains this history, but evaluating each change at one point and applying it at a later one (to the world obtained at evaluation) does: a change computed from a read was applied after the state it read had changed\n%s", strings.Join(lines, "\n"))
+			return
+		case porcupine.Unknown:
+			rc.Probe("porcupine-unknown")
+			return
+		}
+	}
 	switch res {
 	case porcupine.Ok:
 		rc.Probe("porcupine-ok")
 	case porcupine.Unknown:
 		rc.Probe("porcupine-unknown")
 	case porcupine.Illegal:
-		_ = info
 		var lines []string
 		for c := range ops {
 			for _, op := range ops[c] {
